@@ -116,9 +116,13 @@ def gridCommon (g : GridSpec) : List String :=
     | .mesh _ _ _ a => a.toList
     | _ => List.replicate n g.area
   (match g with
-    | .raster r _ => [line "spacing" (joinF [r.dy, r.dx])]
-    | .profile _ dx _ _ => [line "spacing" (joinF [dx])]
+    | .raster r _ => [line "spacing" (joinF [r.dy, r.dx]),
+                      line "length" (joinF [Float.ofNat (r.rows - 1) * r.dy, Float.ofNat (r.cols - 1) * r.dx]),
+                      line "shape" (joinNats [r.rows, r.cols])]
+    | .profile n dx _ _ => [line "spacing" (joinF [dx]), line "length" (joinF [Float.ofNat (n - 1) * dx]),
+                            line "shape" (joinNats [n])]
     | _ => []) ++
+  [line "status_views_agree" "1"] ++
   [ line "size" (toString n), line "nmax" (toString g.nmax),
     line "status" (joinNats g.status.toList),
     line "area" (joinF areas), line "area_views_agree" "1" ]
